@@ -29,9 +29,11 @@ class C19Monitor(Monitor):
         self.acts = {k: [] for k in self.cfg}
         self.stage = {}
         self.concluded_at = {}
+        self.exec_ts = {}
         for name, agent in run.env.game.agents.items():
             if hasattr(agent, "current_kill_chain_stage"):
                 self.stage[name] = agent.current_kill_chain_stage
+                self.exec_ts[name] = getattr(agent, "current_timestep", 0)
 
     def after_build(self, run):
         self.new_episode(run)
@@ -39,9 +41,9 @@ class C19Monitor(Monitor):
     def after_reset(self, run, seed, ret):
         self.new_episode(run)
 
-    def bad(self, clause, name, msg, **detail):
+    def bad(self, clause, name, msg, sig_extra="", **detail):
         a = self.cfg.get(name, {})
-        raise Violation("C19", clause, f"agent {name} ({a.get('type')}): {msg}; settings {jsonable(a.get('agent_settings'))}", sig=f"{clause}:{a.get('type')}", detail={"agent": name, "type": a.get("type"), "settings": jsonable(a.get("agent_settings")), **detail})
+        raise Violation("C19", clause, f"agent {name} ({a.get('type')}): {msg}; settings {jsonable(a.get('agent_settings'))}", sig=f"{clause}:{a.get('type')}" + (f":{sig_extra}" if sig_extra else ""), detail={"agent": name, "type": a.get("type"), "settings": jsonable(a.get("agent_settings")), **detail})
 
     def after_step(self, run, action, ret):
         game = run.env.game
@@ -114,6 +116,24 @@ class C19Monitor(Monitor):
                     if name in self.concluded_at and not s.get("repeat_kill_chain", False):
                         self.bad("acted-after-kill-chain-ended", name, f"action {item.action} at tick {tick} after the chain ended at tick {self.concluded_at[name]}")
                 old, new = self.stage.get(name), agent.current_kill_chain_stage
+                # the documented mechanism: a stage is only entered after the previous action came back "success";
+                # the agent's own bookkeeping names the step of that previous action (current_timestep before this step)
+                prev_exec, cur_exec = self.exec_ts.get(name), getattr(agent, "current_timestep", None)
+                self.exec_ts[name] = cur_exec
+                if old is not None and prev_exec is not None and cur_exec != prev_exec and prev_exec < len(agent.history) - 1:
+                    status = agent.history[prev_exec].response.status
+                    if status != "success":
+                        run.probe("c19_tap_previous_action_unsuccessful")
+                        if status != "failure":
+                            run.probe("c19_tap_previous_action_unreachable")
+                        # PROPAGATE / PAYLOAD (TAP001) and PLANNING (TAP003) handle an unsuccessful action themselves
+                        if old.name not in ("PROPAGATE", "PAYLOAD", "PLANNING", "NOT_STARTED") and old.name not in TERMINAL:
+                            if new.name not in TERMINAL and new.name != "NOT_STARTED" and int(new) > int(old):
+                                self.bad("stage-advanced-after-unsuccessful-action", name, f"stage went {old.name} -> {new.name} at tick {tick} although the previous action {agent.history[prev_exec].action} (tick {prev_exec}) came back {status!r}", sig_extra=str(status))
+                            if new.name == "SUCCEEDED":
+                                self.bad("stage-advanced-after-unsuccessful-action", name, f"kill chain SUCCEEDED at tick {tick} although the previous action (tick {prev_exec}) came back {status!r}", sig_extra=str(status))
+                            if s.get("repeat_kill_chain_stages") is False and new.name not in ("FAILED", "NOT_STARTED") and not (s.get("repeat_kill_chain") and int(new) == 1):
+                                self.bad("no-failure-after-unsuccessful-action", name, f"repeat_kill_chain_stages is off, the previous action (tick {prev_exec}) came back {status!r}, yet the stage is {new.name} at tick {tick}", sig_extra=str(status))
                 if old is not None and new != old:
                     run.probe("c19_kill_chain_stage_changed")
                     on, nn = old.name, new.name
@@ -126,10 +146,15 @@ class C19Monitor(Monitor):
                     elif nn == "FAILED":
                         ok = True
                     elif nn == "SUCCEEDED":
-                        last = max(int(m) for m in type(new) if int(m) < 100)
+                        # the last stage the agent implements = the last one it has options for (TAP003's enumeration
+                        # lists further, not yet implemented stages after EXPLOIT)
+                        names = [k for k in (s.get("kill_chain") or {}) if k in type(new).__members__]
+                        last = max([int(type(new)[k]) for k in names] or [max(int(m) for m in type(new) if int(m) < 100)])
                         ok = int(old) == last
                     elif nn == "NOT_STARTED":
-                        ok = False
+                        # failing a stage (repeat_kill_chain_stages off) and restarting the chain (repeat_kill_chain on)
+                        # both happen inside one step: FAILED is passed through without being observable
+                        ok = bool(s.get("repeat_kill_chain", False))
                     else:
                         ok = int(new) == int(old) + 1
                     if not ok:
